@@ -959,6 +959,7 @@ func main() {
 			Fn   string   `json:"fn"`
 			Args []uint64 `json:"args"`
 			Why  string   `json:"why"`
+			Big  bool     `json:"big"` // also place 512 iovecs {0, 16 KiB} at 0x8000 (overlapping: 8 MiB in total from 64 KiB of memory)
 		}
 		if err == nil {
 			err = json.Unmarshal(raw, &fixed)
@@ -983,7 +984,18 @@ func main() {
 				g := &gen{rng: rng, w: w}
 				w.call(ctx, "prelude", "path_open", []uint64{3, 1, aPaths, 5, 0, 0x42, 0, 0, aOut}, g.placeAll)
 				w.call(ctx, "prelude", "path_open", []uint64{3, 1, aPaths + 32, 3, 2, 0x42, 0, 0, aOut}, g.placeAll)
-				w.call(ctx, "fixed", fx.Fn, fx.Args, g.placeAll)
+				place := g.placeAll
+				if fx.Big {
+					place = func(p *placer) {
+						g.placeAll(p)
+						blob := make([]byte, 0, 4096)
+						for k := 0; k < 512; k++ {
+							blob = append(blob, append(le32(0), le32(0x4000)...)...)
+						}
+						p.put(0x8000, blob)
+					}
+				}
+				w.call(ctx, "fixed", fx.Fn, fx.Args, place)
 				w.close(ctx)
 			}
 		}
